@@ -122,3 +122,25 @@ Theorem C14_default_is_the_current_one : forall h1 op default q0 h2,
   nth_error (build_all (h1 ++ (op, default, q0) :: h2)) (length h1) = Some (expected_request op default q0).
 Proof. exact build_all_current. Qed.
 Print Assumptions C14_default_is_the_current_one.
+
+(* ---- a credential is taken from the place its scheme declares, and from nowhere else ---- *)
+
+(* each authenticator reads what it would read of the request reduced to its declared location: the Authorization header
+   (basic), the header or the query parameter of the key's name (API key), the Authorization header / access_token in the
+   query / access_token in a form body (bearer); other headers, cookies, query parameters and form fields play no part *)
+Theorem C14_declared_location_only : forall k name q,
+  read_cred k name q = read_cred k name (declared_part k name q).
+Proof. exact declared_location_only. Qed.
+Print Assumptions C14_declared_location_only.
+
+(* ... hence two requests that agree on the declared location yield the same credential or the same not-applicable *)
+Theorem C14_same_declared_same_credential : forall k name q q',
+  declared_part k name q = declared_part k name q' -> read_cred k name q = read_cred k name q'.
+Proof. exact same_declared_same_credential. Qed.
+Print Assumptions C14_same_declared_same_credential.
+
+(* the predicate evaluated on the real authenticators accepts the model's answer *)
+Theorem C14_declared_location_accepts_model : forall k name q,
+  from_declared_location k name q (has_cred (read_cred k name q)) (read_cred k name q) = true.
+Proof. exact declared_location_accepts_model. Qed.
+Print Assumptions C14_declared_location_accepts_model.
